@@ -67,6 +67,9 @@ enum COp {
     Sw(Op),
     Deny(usize),
     Permit(usize),
+    /// resolve transport dial `k` as `peer`, poll the Swarm ONCE (the task queues its Established
+    /// report), make `q` denied, poll to quiescence
+    RaceDeny { k: usize, peer: usize, deny: bool, q: usize },
 }
 
 impl COp {
@@ -75,12 +78,14 @@ impl COp {
             COp::Sw(op) => op.render(),
             COp::Deny(p) => format!("deny {p}"),
             COp::Permit(p) => format!("permit {p}"),
+            COp::RaceDeny { k, peer, deny, q } => format!("raceDeny {k} {peer} {} {q}", *deny as u8),
         }
     }
     fn parse(t: &[String]) -> COp {
         match t[0].as_str() {
             "deny" => COp::Deny(t[1].parse().unwrap()),
             "permit" => COp::Permit(t[1].parse().unwrap()),
+            "raceDeny" => COp::RaceDeny { k: t[1].parse().unwrap(), peer: t[2].parse().unwrap(), deny: t[3] == "1", q: t[4].parse().unwrap() },
             _ => COp::Sw(Op::parse(t).unwrap_or_else(|| panic!("replay: unknown op {}", t[0]))),
         }
     }
@@ -103,6 +108,17 @@ where
             };
             api = format!("ret={} woken={}", ret, r.woken() as u8);
             ("res=-".to_string(), r.settle())
+        }
+        COp::RaceDeny { k, peer, deny, q } => {
+            r.script.lock().unwrap().deny_est_out = *deny;
+            let new_mux = r.sim.resolve_dial(*k, Ok(r.peers[*peer]));
+            r.poll_once();
+            let id = r.peers[*q];
+            let ret = r.sim.swarm.behaviour_mut().deny(id);
+            api = format!("ret={} woken={}", ret, r.woken() as u8);
+            let log = r.settle();
+            r.bind_mux(new_mux, &log);
+            ("res=-".to_string(), log)
         }
     });
     let sfx = move |r: &mut Runner<B>| {
@@ -187,7 +203,17 @@ impl Gen {
             72..=73 => Op::Disconnect { peer: Self::remote(rng) },
             74..=75 => Op::RemoteClose { c: some_conn(rng) },
             76..=77 => Op::BehClose { peer: Self::remote(rng), one: if rng.bool() { Some(some_conn(rng)) } else { None } },
-            78..=88 => return COp::Deny(Self::remote(rng)),
+            78..=80 => {
+                // the list change races with a finished known-peer dial
+                let open: Vec<usize> = Self::open_dials(r).into_iter().filter(|k| self.dial_peer.get(*k).copied().flatten().is_some()).collect();
+                if open.is_empty() {
+                    return COp::Deny(Self::remote(rng));
+                }
+                let k = *rng.pick(&open);
+                let p = self.dial_peer[k].unwrap();
+                return COp::RaceDeny { k, peer: p, deny: rng.chance(1, 16), q: if rng.chance(9, 10) { p } else { Self::remote(rng) } };
+            }
+            81..=88 => return COp::Deny(Self::remote(rng)),
             _ => return COp::Permit(Self::remote(rng)),
         })
     }
@@ -203,7 +229,7 @@ impl Gen {
     }
 }
 
-fn run_script<B: ListOps>(rng: &mut Rng, len: usize, allow: bool, out: &mut Out)
+fn run_script<B: ListOps>(rng: &mut Rng, len: usize, allow: bool, race: bool, out: &mut Out)
 where
     B::ToSwarm: std::fmt::Debug,
 {
@@ -216,6 +242,29 @@ where
             if rng.chance(3, 4) {
                 step(&mut r, &COp::Permit(p), out);
             }
+        }
+    }
+    if race {
+        // a pending known-peer dial to `p` (often with an established connection to `p` as well),
+        // then the list change lands between the end of the upgrade and the Swarm's next poll
+        let p = Gen::remote(rng);
+        let mut pre: Vec<COp> = vec![];
+        if allow {
+            pre.push(COp::Permit(p));
+        }
+        if rng.bool() {
+            pre.push(COp::Sw(Op::Incoming { deny: false }));
+            pre.push(COp::Sw(Op::ResolveIn { k: 0, peer: p, deny: false }));
+        }
+        pre.push(COp::Sw(Op::Dial { via_beh: false, cond: 0, peer: Some(p), addrs: vec![g.addrs[0].clone()], extend: false, beh_addrs: vec![], deny: false, refuse: vec![], ov: false }));
+        for op in pre {
+            step(&mut r, &op, out);
+            g.after(&op, &r);
+        }
+        let open = Gen::open_dials(&r);
+        if let Some(k) = open.last() {
+            let op = COp::RaceDeny { k: *k, peer: p, deny: false, q: p };
+            step(&mut r, &op, out);
         }
     }
     for _ in 0..len {
@@ -257,11 +306,12 @@ pub fn run(args: &Args, out: &mut Out) {
         let mut rng = Rng::for_case(args.seed, i);
         let allow = rng.bool();
         let len = 8 + rng.usize(50);
-        out.case(i, &format!("script nt=1 len={len} mode={} peers={}", if allow { "allow" } else { "block" }, peers_tok()));
+        let race = rng.chance(1, 3);
+        out.case(i, &format!("{} nt=1 len={len} mode={} peers={}", if race { "race" } else { "script" }, if allow { "allow" } else { "block" }, peers_tok()));
         if allow {
-            run_script::<BAllow>(&mut rng, len, true, out);
+            run_script::<BAllow>(&mut rng, len, true, race, out);
         } else {
-            run_script::<BBlock>(&mut rng, len, false, out);
+            run_script::<BBlock>(&mut rng, len, false, race, out);
         }
         out.end();
     }
